@@ -2,6 +2,7 @@ SPEC = {
     "id": "C03",
     "n": {"quick": 900, "thorough": 100000},
     "search": {"n": 40000},
+    "coq_modules": ["DiffMerge.Model", "DiffMerge.GModel", "DiffMerge.GInst"],
     "components": {"1": "diff.Diff delta", "2": "merge.Merge result", "3": "client/src/merge.ts result",
                    "4": "diff.Diff delta on Go-typed values, after JSON (generic model)", "5": "merge.Merge on it (generic model)",
                    "6": "client/src/merge.ts on it (generic model)", "7": "merge.Merge on an edited delta: value / error",
